@@ -347,6 +347,6 @@ def teardown_worker(rec, ctx):
 
 META = {
     "technique": "runtime law monitors over an introspected instance population (generated argument shapes, nodes harvested from unfolding, nodes of real models): subs/xreplace commute with doit, equality/hash, func(*args) rebuild, folded vs unfolded generated code",
-    "level_text": "All sympy.Basic subclasses found by walking the ampform package (47 today) are instantiated with symbol / number / compound / nested-unevaluated argument shapes and, for non-SymPy fields, every phase-space class and name value; every instance plus every private implementation node it unfolds to plus the deepest nodes of real models (4-body kinematics, form-factor and analytic Breit-Wigner dynamics) is checked against the laws with up to seven substitution maps (symbol->symbol/number/expression, simultaneous, array->array) through both xreplace and subs, and its generated NumPy code is compared folded vs unfolded with cse on and off.",
+    "level_text": "All sympy.Basic subclasses found by walking the ampform package (47 today) are instantiated with symbol / number / compound / nested-unevaluated argument shapes and, for non-SymPy fields, every phase-space class and name value; every instance plus every private implementation node it unfolds to plus the deepest nodes of real models (4-body kinematics, form-factor and analytic Breit-Wigner dynamics) is checked against the laws with up to seven substitution maps (symbol->symbol/number/expression, simultaneous, array->array) through both xreplace and subs, and its generated NumPy code is compared folded vs unfolded with cse on and off. Also: keyword construction in any order, callables as non-SymPy attributes (closures, lambdas, bound methods with equal qualified names), 3-60 randomly drawn argument/attribute combinations per class, shaped array symbols with out-of-range slices, and three toy classes written with the decorator whose non-SymPy field is not last.",
     "level_note": "Structural equality, else numeric equality at 5 random points; a folded form that cannot be printed at all (no _numpycode) is counted, not judged; classes are discovered at run time so the class list is whatever the working tree defines.",
 }
